@@ -1,6 +1,7 @@
 """Variants for the writer properties C05-C07."""
 W = "bibtexparser/writer.py"
 VARIANTS = [
+    ("revert-D23-warning-comment-format-crash", "C06", "bibtexparser/writer.py", "    try:\n        parsing_failed_comment = bibtex_format.parsing_failed_comment.format(n=lines)\n    except (KeyError, IndexError, ValueError):\n        # Not a template with (only) the `{n}` placeholder, e.g. a text with other braces: use it as it is.\n        parsing_failed_comment = bibtex_format.parsing_failed_comment\n", "    parsing_failed_comment = bibtex_format.parsing_failed_comment.format(n=lines)\n", "fire"),
     ("writer-comma-off-by-one", "C06", W, "if bibtex_format.trailing_comma or i < len(block.fields) - 1:", "if bibtex_format.trailing_comma or i < len(block.fields):", "fire"),
     ("writer-comma-and", "C06", W, "if bibtex_format.trailing_comma or i < len(block.fields) - 1:", "if bibtex_format.trailing_comma and i < len(block.fields) - 1:", "fire"),
     ("writer-pad-ignores-sep", "C06", W, "length = bibtex_format.value_column - len(key) - len(VAL_SEP)", "length = bibtex_format.value_column - len(key)", "fire"),
